@@ -335,7 +335,7 @@ func Solve(name, body string, timeoutS int, wantModel bool, all bool) SolveResul
 	start := time.Now()
 	type ans struct {
 		solver, status, out string
-		secs               float64
+		secs                float64
 	}
 	ctx, cancel := context.WithCancel(context.Background())
 	defer cancel()
